@@ -502,7 +502,10 @@ class Status:
         self.data.update(Status.defaults)
 
         for key in list(data.keys()):
-            self.data[key.strip().lower()] = data[key].strip()
+            name = key.strip().lower()
+            # VV: the error-description is free text which writeToStream() escapes, its leading/trailing blanks
+            # (e.g. the indentation of a traceback) are part of the value and must survive a round-trip
+            self.data[name] = data[key] if name == 'error-description' else data[key].strip()
 
         self.data['stages'] = stages
 
